@@ -653,7 +653,11 @@ def sink_work(shard, nshards, payload):
             if not vc.accepted(g):
                 t.inc("sink_refused")
                 continue
-            got = loc(uiread.parse(g["ui"]), "t")
+            try:
+                got = loc(uiread.parse(g["ui"]), "t")
+            except uiread.UiParseError as ex:
+                t.violation(f"sink:ui-not-parsable:{name}", {"id": f"sink/{name}/{e}", "source": src, "error": str(ex)})
+                continue
             want = SINK_EXPECT[e]
             t.inc("expressions")
             t.distinct.add(("sink", name, e))
